@@ -120,7 +120,7 @@ BUILDERS = {
     "extra": {"valid": extra_valid_ops, "invalid": EXTRA_INVALID, "model": M.extra_add, "attr": "extra_files",
               "new": lambda: __import__("productmd.extra_files").extra_files.ExtraFiles()},
 }
-REQUIRED_OUTCOMES = (["%s:filed" % b for b in ("rpms", "modules")] + ["extra:appended", "dump_for_tree:ok", "self-reload:ok"] +
+REQUIRED_OUTCOMES = (["%s:filed" % b for b in ("rpms", "modules")] + ["extra:appended", "dump_for_tree:ok"] +
                      sorted({"rpms:refused:" + r for _, r in RPM_INVALID} | {"modules:refused:" + r for _, r in MOD_INVALID} |
                             {"extra:refused:" + r for _, r in EXTRA_INVALID}))
 
